@@ -95,6 +95,9 @@ var ExtEffects = map[string]string{
 	"(io/fs.FileMode).IsDir":      EffPure,
 	"io.WriteString":              "writer", // classified by the writer
 	"io.Copy":                     "writer",
+	"fmt.Fprintf":                 "writer",
+	"fmt.Fprint":                  "writer",
+	"fmt.Fprintln":                "writer",
 	"(*bufio.Reader).WriteTo":     "writer",
 	"(*bufio.Reader).ReadString":  EffFSRead,
 	"bufio.NewReader":             EffPure,
@@ -252,8 +255,8 @@ func ClassifyOpenFile(flag int64) string {
 // ExtCalls lists the classified external calls of a module function; unknown holds calls into
 // effect packages that the table does not classify.
 func (p *Prog) ExtCalls(f *ssa.Function) (calls []ExtCall, unknown []ExtCall) {
-	for _, b := range f.Blocks {
-		for _, in := range b.Instrs {
+	for _, in := range DeepInstrs(f) {
+		{
 			c, ok := in.(ssa.CallInstruction)
 			if !ok {
 				continue
